@@ -236,105 +236,105 @@ def _create_chunks(ctx, f):
 
 
 def _label_table(ctx, f):
+    """Truth table of convert_targets_column over label vectors, evaluated
+    on the terms of its guards and of the value it stores (temporaries,
+    early return versus nesting, any() versus .any() do not matter)."""
+    from ..chunks import Unknown, Vec, ev
+    from ..events import container_events
+    prog = ctx.prog
     p_data, p_col = f.params
     cfg = CFG(f.node)
-    # bool passes through
-    early = [n for n in ast.walk(f.node) if isinstance(n, ast.Return)
-             and any("dtype == bool" in ast.unparse(g[0]) and g[1]
-                     for g in cfg.guards(n))]
-    ctx.check(len(early) == 1 and ast.unparse(early[0].value) == p_data,
-              "C10b-bool-passthrough", f,
-              "boolean label columns pass through unchanged",
-              "no early return for boolean labels", node=f.node)
-    lab = [n for n in f.node.body if isinstance(n, ast.Assign)
-           and ast.unparse(n.value) == f"{p_data}[{p_col}].astype(int)"]
-    ctx.require(len(lab) == 1, f"{f.qual}: integer label vector not found")
-    L = ast.unparse(lab[0].targets[0])
-    raises = [n for n in ast.walk(f.node) if isinstance(n, ast.Raise)]
-    ctx.require(len(raises) == 1, f"{f.qual}: expected one raise")
-    gs = cfg.guards(raises[0])
-    sets = [n for n in f.node.body if isinstance(n, ast.Assign)
-            and isinstance(n.targets[0], ast.Subscript)]
-    ctx.require(len(sets) == 1, f"{f.qual}: label store not found")
+    du = DefUse(prog, f)
+    T = Terms(du)
+    DATA = ("param", p_data)
+    COL = ("sub", DATA, ("param", p_col))
+    DT = ("attr", COL, "dtype")
+    evs = [e for e in container_events(f.node, T, cfg)
+           if e.kind == "store"]
+    sets = [e for e in evs if e.recv == DATA or (
+        e.recv[0] in ("store",) and e.recv[1] == DATA)]
+    raises = [n for n in walk_own(f.node) if isinstance(n, ast.Raise)]
+    rets = [n for n in walk_own(f.node) if isinstance(n, ast.Return)]
+    ctx.require(raises and sets and rets,
+                f"{f.qual}: raise / label store / return not found")
+
+    def atoms_for(vec, is_bool):
+        def atoms(t):
+            if t == COL:
+                return Vec(vec)
+            if t[0] == "mcall" and t[1] == COL and t[2] == "astype":
+                return Vec(int(x) for x in vec)
+            if t[0] == "cmp" and t[1] in ("==", "!=", "is", "is not") and \
+                    DT in (t[2], t[3]):
+                other = t[3] if t[2] == DT else t[2]
+                if other in (("free", "bool"), ("name", "builtins.bool"),
+                             ("name", "numpy.bool_"), ("const", "bool")):
+                    return is_bool if t[1] in ("==", "is") else not is_bool
+            if t[0] == "call" and t[1] in (
+                    "pandas.api.types.is_bool_dtype",
+                    "pandas.core.dtypes.common.is_bool_dtype") and \
+                    t[2] and t[2][0] in (COL, DT):
+                return is_bool
+            raise KeyError(t)
+        return atoms
+
+    def reached(node, at):
+        return all(bool(ev(t, at)) == o for t, o in cond_terms(cfg, T, node))
+
+    def is_frame(t):
+        """the caller's frame object (possibly with the column replaced)"""
+        if t[0] == "phi":
+            return all(is_frame(x) for x in t[1])
+        while t[0] in ("store", "mutsub", "mut"):
+            t = t[1]
+        return t == DATA
+
     rows, bad = [], []
-
-    class Vec(tuple):
-        pass
-
-    class E(_Arith):
-        """label vectors instead of single labels: element-wise
-        comparisons, any / all, .min() / .max() / .abs()"""
-
-        def ev(self, e):
-            if isinstance(e, ast.Call):
-                fn = ast.unparse(e.func)
-                if fn in ("any", "all", "np.any", "np.all") and e.args:
-                    v = self.ev(e.args[0])
-                    v = v if isinstance(v, Vec) else Vec((v,))
-                    return (any if fn.endswith("any") else all)(
-                        bool(x) for x in v)
-                if fn in ("abs", "np.abs") and e.args:
-                    v = self.ev(e.args[0])
-                    return Vec(abs(x) for x in v) if isinstance(v, Vec) \
-                        else abs(v)
-                if isinstance(e.func, ast.Attribute) and not e.args and \
-                        e.func.attr in ("min", "max", "any", "all", "abs"):
-                    v = self.ev(e.func.value)
-                    if isinstance(v, Vec):
-                        if e.func.attr == "abs":
-                            return Vec(abs(x) for x in v)
-                        return {"min": min, "max": max, "any": any,
-                                "all": all}[e.func.attr](v)
-            if isinstance(e, ast.Compare) and len(e.ops) == 1:
-                a, b = self.ev(e.left), self.ev(e.comparators[0])
-                if isinstance(a, Vec) or isinstance(b, Vec):
-                    n = len(a) if isinstance(a, Vec) else len(b)
-                    av = a if isinstance(a, Vec) else Vec((a,) * n)
-                    bv = b if isinstance(b, Vec) else Vec((b,) * n)
-                    op = {ast.Lt: lambda x, y: x < y,
-                          ast.LtE: lambda x, y: x <= y,
-                          ast.Gt: lambda x, y: x > y,
-                          ast.GtE: lambda x, y: x >= y,
-                          ast.Eq: lambda x, y: x == y,
-                          ast.NotEq: lambda x, y: x != y}[type(e.ops[0])]
-                    return Vec(op(x, y) for x, y in zip(av, bv))
-            if isinstance(e, ast.BinOp) and isinstance(
-                    e.op, (ast.BitOr, ast.BitAnd)):
-                a, b = self.ev(e.left), self.ev(e.right)
-                if isinstance(a, Vec) and isinstance(b, Vec):
-                    f2 = (lambda x, y: x or y) if isinstance(
-                        e.op, ast.BitOr) else (lambda x, y: x and y)
-                    return Vec(f2(x, y) for x, y in zip(a, b))
-            if isinstance(e, ast.UnaryOp) and isinstance(e.op, ast.Invert):
-                v = self.ev(e.operand)
-                if isinstance(v, Vec):
-                    return Vec(not x for x in v)
-            return super().ev(e)
-
     vals = (-2, -1, 0, 1, 2)
     vectors = [(a_,) for a_ in vals] + [(a_, b_) for a_ in vals
                                         for b_ in vals]
-    for vec in vectors:
-        ar = E({L: Vec(vec)})
-        raised = all(bool(ar.ev(t)) == pol for t, pol in gs)
-        out = None
-        if not raised:
-            o = ar.ev(sets[0].value)
-            out = [bool(x) for x in o] if isinstance(o, Vec) else None
-        want_raise = any(abs(v) > 1 for v in vec)
-        want = None if want_raise else [v == 1 for v in vec]
-        rows.append({"labels": list(vec), "raises": raised, "target": out})
-        if raised != want_raise or out != want:
-            bad.append(rows[-1])
+    try:
+        for vec in vectors:
+            at = atoms_for(vec, False)
+            raised = any(reached(r, at) for r in raises)
+            out = None
+            if not raised:
+                st = [e for e in sets if reached(e.stmt, at)]
+                if len(st) == 1:
+                    o = ev(st[0].value, at)
+                    out = [bool(x) for x in o] if isinstance(o, Vec) \
+                        else None
+            want_raise = any(abs(v) > 1 for v in vec)
+            want = None if want_raise else [v == 1 for v in vec]
+            rows.append({"labels": list(vec), "raises": raised,
+                         "target": out})
+            if raised != want_raise or out != want:
+                bad.append(rows[-1])
+        # boolean columns pass through: nothing raised, nothing stored
+        atb = atoms_for((True, False), True)
+        changed = [e for e in sets if reached(e.stmt, atb)]
+        ok_b = not any(reached(r, atb) for r in raises) and not changed \
+            and any(reached(r, atb) and is_frame(T.of(r.value))
+                    for r in rets if r.value is not None)
+    except (Unknown, KeyError) as e:
+        raise AnalysisError(f"{f.qual}: a guard is outside the evaluated "
+                            f"fragment: {str(e)[:100]}")
+    ctx.check(ok_b, "C10b-bool-passthrough", f,
+              "boolean label columns pass through unchanged",
+              "a boolean label column is converted, rejected or not "
+              "returned", node=f.node)
     ctx.extra["label_table"] = rows[:5]
     ctx.check(not bad, "C10b-label-table", f,
               "1 -> target, 0 and -1 -> decoy, a column containing anything "
               f"else is rejected ({len(vectors)} label vectors)",
-              f"deviates: {bad[:4]}", node=sets[0])
-    ctx.check(ast.unparse(sets[0].targets[0]) == f"{p_data}[{p_col}]",
+              f"deviates: {bad[:4]}", node=sets[0].node)
+    ctx.check(all(e.key == ("param", p_col) for e in sets)
+              and all(is_frame(T.of(r.value))
+                      for r in rets if r.value is not None),
               "C10b-label-stored-in-place", f,
-              "the converted labels replace the label column",
-              ast.unparse(sets[0].targets[0]), node=sets[0])
+              "the converted labels replace the label column of the frame "
+              "that is returned",
+              f"{[show(e.key, 40) for e in sets]}", node=sets[0].node)
 
 
 def _helpers(ctx):
